@@ -210,6 +210,8 @@ pub trait Backend: Sized {
     const NAME: &'static str;
     const PERSISTENT: bool;
     const PER_HANDLE_CACHE: bool;
+    /// Upper bound on parallel workers (see `par::par_map_capped`).
+    const WORKERS: usize = 5;
     fn open() -> impl Future<Output = Self>;
     fn reopen(self) -> impl Future<Output = Self>;
     fn storage(&self) -> &Self::S;
@@ -228,6 +230,7 @@ impl Backend for MemBackend {
     const NAME: &'static str = "MemStore";
     const PERSISTENT: bool = false;
     const PER_HANDLE_CACHE: bool = false;
+    const WORKERS: usize = usize::MAX;
     async fn open() -> Self {
         MemBackend(MemStore::default())
     }
@@ -658,7 +661,10 @@ fn explore<B: Backend>(al: &Alphabet, max_depth: usize, max_states: usize) -> (S
                 work.push((path.clone(), call, m.clone(), nm));
             }
         }
-        let parts = par::par_map(&work, |_, (path, call, _, expect)| {
+        if std::env::var("VERIF_PROGRESS").is_ok() {
+            eprintln!("[C17] {} depth {depth}: {} states, {} transitions", B::NAME, level.len(), work.len());
+        }
+        let parts = par::par_map_capped(&work, B::WORKERS, |_, (path, call, _, expect)| {
             let mut st = Stats::default();
             let ok = check_transition::<B>(path, call, expect, &mut st);
             (st, ok)
@@ -734,7 +740,7 @@ fn subset_purges<B: Backend>() -> Stats {
             }
         }
     }
-    let parts = par::par_map(&work, |_, (path, call, expect)| {
+    let parts = par::par_map_capped(&work, B::WORKERS, |_, (path, call, expect)| {
         let mut st = Stats::default();
         // the set-up first (reported on its own if it is what fails), then the purge
         let mut m = Model::default();
@@ -758,47 +764,123 @@ fn subset_purges<B: Backend>() -> Stats {
     total
 }
 
+/// The blocks of a tier: (part name, label in the evidence, bounds text).
+fn parts(tier: Tier) -> Vec<(&'static str, &'static str, &'static str)> {
+    if tier.is_thorough() {
+        vec![
+            ("mem", "MemStore", "full alphabet, closure"),
+            ("sqlmem", "SQLite memory", "reduced alphabet (2 payloads, 2 stamps), closure"),
+            ("sqlmem-large", "SQLite memory (64 KiB payloads, top-second stamps)", "full alphabet, depth 2"),
+            ("sqlfile", "SQLite file", "tiny alphabet (1 payload, 2 stamps) + reopen, closure"),
+            ("lmdb", "LMDB", "tiny alphabet + reopen, closure (state includes the handle's warm keyspaces)"),
+            ("lmdb-large", "LMDB (64 KiB payloads)", "full alphabet + reopen, depth 2"),
+        ]
+    } else {
+        vec![
+            ("mem", "MemStore", "reduced alphabet, closure"),
+            ("sqlmem", "SQLite memory", "tiny alphabet, depth 2 (the file-backed block runs the same statements deeper; closure in thorough)"),
+            ("sqlmem-large", "SQLite memory (64 KiB payloads, top-second stamps)", "full alphabet, depth 1"),
+            ("sqlfile", "SQLite file", "tiny alphabet + reopen, depth 3"),
+            ("lmdb", "LMDB", "tiny alphabet + reopen, depth 3"),
+        ]
+    }
+}
+
+const PURGE_PARTS: [&str; 4] = ["purge-mem", "purge-sqlmem", "purge-sqlfile", "purge-lmdb"];
+
+/// One block, by name. Runs in a process of its own (see `run`).
+fn run_part(name: &str, tier: Tier) -> Option<(Stats, bool)> {
+    let reduced = Alphabet { payloads: vec![0, 1], stamps: vec![0, 1], reopen: true };
+    let full = Alphabet { payloads: vec![0, 1, 2], stamps: vec![0, 1, 2], reopen: true };
+    let tiny = Alphabet { payloads: vec![1], stamps: vec![0, 2], reopen: true };
+    let th = tier.is_thorough();
+    Some(match name {
+        "mem" => explore::<MemBackend>(if th { &full } else { &reduced }, 64, 1_000_000),
+        "sqlmem" => explore::<SqliteMem>(if th { &reduced } else { &tiny }, if th { 64 } else { 2 }, 1_000_000),
+        "sqlmem-large" => explore::<SqliteMem>(&full, if th { 2 } else { 1 }, 1_000_000),
+        "sqlfile" => explore::<SqliteFile>(&tiny, if th { 64 } else { 3 }, 1_000_000),
+        "lmdb" => explore::<Lmdb>(&tiny, if th { 64 } else { 3 }, 1_000_000),
+        "lmdb-large" => explore::<Lmdb>(&full, 2, 1_000_000),
+        "purge-mem" => (subset_purges::<MemBackend>(), false),
+        "purge-sqlmem" => (subset_purges::<SqliteMem>(), false),
+        "purge-sqlfile" => (subset_purges::<SqliteFile>(), false),
+        "purge-lmdb" => (subset_purges::<Lmdb>(), false),
+        _ => return None,
+    })
+}
+
+/// `vcheck --c17-part <name> <tier> <out file>`: one block in its own process.
+pub fn part_worker(args: &[String]) -> i32 {
+    let (Some(name), Some(tier), Some(out)) = (args.first(), args.get(1), args.get(2)) else { return 2 };
+    let tier = if tier == "thorough" { Tier::Thorough } else { Tier::Quick };
+    let Some((st, capped)) = run_part(name, tier) else { return 2 };
+    let doc = J::obj().set("stats", st.to_json()).set("capped", capped);
+    match std::fs::write(out, doc.to_string_compact()) {
+        Ok(()) => 0,
+        Err(_) => 2,
+    }
+}
+
 pub fn run(tier: Tier) -> i32 {
     let mut report = Report::new("C17", tier, "model_checking");
     let mut total = Stats::default();
     let mut per_backend = Vec::new();
+    let t0 = std::time::Instant::now();
 
-    let reduced = Alphabet { payloads: vec![0, 1], stamps: vec![0, 1], reopen: true };
-    let full = Alphabet { payloads: vec![0, 1, 2], stamps: vec![0, 1, 2], reopen: true };
-    let tiny = Alphabet { payloads: vec![1], stamps: vec![0, 2], reopen: true };
-
-    let mut run_one = |name: &str, res: (Stats, bool), bounds: String| {
-        let (st, capped) = res;
-        per_backend.push(
-            J::obj()
-                .set("backend", name)
-                .set("model_states", st.get("states"))
-                .set("transitions", st.get("transitions"))
-                .set("frontier_left_unexplored", capped)
-                .set("bounds", bounds),
-        );
-        total.merge(st);
-    };
-
-    if tier.is_thorough() {
-        run_one("MemStore", explore::<MemBackend>(&full, 64, 1_000_000), "full alphabet, closure".into());
-        run_one("SQLite memory", explore::<SqliteMem>(&reduced, 64, 1_000_000), "reduced alphabet (2 payloads, 2 stamps), closure".into());
-        run_one("SQLite memory (64 KiB payloads, top-second stamps)", explore::<SqliteMem>(&full, 2, 1_000_000), "full alphabet, depth 2".into());
-        run_one("SQLite file", explore::<SqliteFile>(&tiny, 64, 1_000_000), "tiny alphabet (1 payload, 2 stamps) + reopen, closure".into());
-        run_one("LMDB", explore::<Lmdb>(&tiny, 64, 1_000_000), "tiny alphabet + reopen, closure (state includes the handle's warm keyspaces)".into());
-        run_one("LMDB (64 KiB payloads)", explore::<Lmdb>(&full, 2, 1_000_000), "full alphabet + reopen, depth 2".into());
-    } else {
-        run_one("MemStore", explore::<MemBackend>(&reduced, 64, 1_000_000), "reduced alphabet, closure".into());
-        run_one("SQLite memory", explore::<SqliteMem>(&tiny, 64, 1_000_000), "tiny alphabet, closure".into());
-        run_one("SQLite memory (64 KiB payloads, top-second stamps)", explore::<SqliteMem>(&full, 1, 1_000_000), "full alphabet, depth 1".into());
-        run_one("SQLite file", explore::<SqliteFile>(&tiny, 3, 1_000_000), "tiny alphabet + reopen, depth 3".into());
-        run_one("LMDB", explore::<Lmdb>(&tiny, 3, 1_000_000), "tiny alphabet + reopen, depth 3".into());
+    // Every block runs in a process of its own, all at once. The SQLite and LMDB backends
+    // answer from a worker thread each, so a fresh backend per transition means creating and
+    // waking an OS thread per transition; many workers doing that in one address space
+    // contend on its lock (measured on this kind of VM: 1.6 ms per spawn alone, 10 ms with 16
+    // workers). Separate processes do not share that lock; each gets a few workers.
+    let blocks = parts(tier);
+    let names: Vec<&str> = blocks.iter().map(|b| b.0).chain(PURGE_PARTS).collect();
+    let exe = std::env::current_exe().expect("current_exe");
+    let base = vkit::scratch_base();
+    let tier_arg = if tier.is_thorough() { "thorough" } else { "quick" };
+    let child_threads = (par::threads() / 3).max(2);
+    let mut children = Vec::new();
+    for name in &names {
+        let out = base.join(format!("verif-c17-{}-{name}.json", std::process::id()));
+        let _ = std::fs::remove_file(&out);
+        let child = std::process::Command::new(&exe)
+            .args(["--c17-part", name, tier_arg])
+            .arg(&out)
+            .env("VERIF_THREADS", child_threads.to_string())
+            .stdout(std::process::Stdio::null())
+            .spawn();
+        children.push((name, out, child));
     }
-
-    total.merge(subset_purges::<MemBackend>());
-    total.merge(subset_purges::<SqliteMem>());
-    total.merge(subset_purges::<SqliteFile>());
-    total.merge(subset_purges::<Lmdb>());
+    let mut results: Vec<Option<(Stats, bool)>> = Vec::new();
+    for (name, out, child) in children {
+        let status = child.and_then(|mut c| c.wait());
+        let parsed = std::fs::read_to_string(&out).ok().and_then(|t| vkit::json::parse(&t).ok()).and_then(|doc| {
+            Some((Stats::from_json(doc.get("stats")?)?, doc.get("capped")?.as_bool()?))
+        });
+        let _ = std::fs::remove_file(&out);
+        if std::env::var("VERIF_PROGRESS").is_ok() {
+            eprintln!("[C17] {name}: collected at {:.1}s ({status:?})", t0.elapsed().as_secs_f64());
+        }
+        if parsed.is_none() {
+            report.guard(false, &format!("block {name} did not complete ({status:?})"));
+        }
+        results.push(parsed);
+    }
+    for ((_, label, bounds), res) in blocks.iter().zip(results.iter_mut()) {
+        if let Some((st, capped)) = res.take() {
+            per_backend.push(
+                J::obj()
+                    .set("backend", *label)
+                    .set("model_states", st.get("states"))
+                    .set("transitions", st.get("transitions"))
+                    .set("frontier_left_unexplored", capped)
+                    .set("bounds", *bounds),
+            );
+            total.merge(st);
+        }
+    }
+    for res in results.into_iter().skip(blocks.len()).flatten() {
+        total.merge(res.0);
+    }
     let subset_purges = total.get("subset_purges");
     let states = total.get("states");
     let transitions = total.get("transitions");
